@@ -8,7 +8,8 @@ CHECKS = {}
 CHECKS["C02"] = {
     "level": "exploration",
     "technique": "bounded-exhaustive enumeration of a slot grammar on the real parser, ground truth by construction",
-    "level_text": "Every sentence of the gen_http slot grammar with at most 2 (quick) / 3 (thorough) non-default slots, under all 8 supported "
+    "level_text": "Every sentence of the gen_http slot grammar (request line forms, Host forms, header styles, cookie shapes, Basic / Digest / Bearer credentials incl. Digest parameters hidden in other "
+                  "parameters' quoted strings, urlencoded and multipart bodies incl. field names with quoted-string escapes, response status / reason / header styles / framings, interim 100 and 103) with at most 2 (quick) / 3 (thorough) non-default slots, under all 8 supported "
                   "personalities, plus all pipelines of length <=3 over 10 representatives, is parsed by the real library and compared field by field "
                   "with the structure the generator encoded. Exhaustive within the stated grammar and bound; not a proof for messages outside it.",
     "level_note": "Trusted: the generator (mc/gen.c) as the definition of 'what was sent'; fold joints accept SP or the raw LWS run; whole-stream delivery.",
@@ -113,7 +114,9 @@ CHECKS["C05"] = {
     "level_text": "Every event history up to the stated depth over the micro (line-sized, incl. malformed and half tokens) and macro (message-sized) alphabets is executed on the "
                   "real parser; the M-life monitor (per-side callback rank never decreases except the interim-100 restart, progress never moves back, each COMPLETE at most "
                   "once, TRANSACTION_COMPLETE only with both sides complete, nothing after it) is evaluated on every callback of every transition. Depth-bounded exhaustive, "
-                  "BFS-minimal counterexamples; deeper damaged histories come from the C03/C04/C16 workloads which carry the same monitor.",
+                  "BFS-minimal counterexamples; deeper damaged histories come from the token-edit workload (27 base exchanges incl. coded bodies in chunked framing with a trailer, complete "
+                  "and cut short, under three configurations) and from the CONNECT / upgrade schedules of C16 (every cut pair, forced cuts at the head / greeting end, every legal interleaving), "
+                  "which carry the same monitor.",
     "level_note": "Executions in which a callback answers STOP/ERROR or destroys a transaction are not judged (the statement quantifies over inputs, chunkings and interleavings). "
                   "Raw *_HEADER_DATA/*_TRAILER_DATA callbacks and the end-of-body marker are only required to precede the side's COMPLETE. Token alphabets in mc/statemc.c.",
     "design_ref": "DESIGN.md §5 E2, §6 C05",
@@ -203,7 +206,8 @@ CHECKS["C09"] = {
     "level_text": "M-api is evaluated after every data call of every transition of the statemc search (documented hand-over and raw call order, one callback deviation "
                   "DECLINED/STOP/ERROR per history up to the deviation depth) and of every schedule of the C04 / C16 interleaving workloads: return code in the documented set, DATA => whole "
                   "chunk consumed, DATA_OTHER => strictly fewer bytes and the driver resumes exactly at the reported count (C04/C16 oracles would see a skipped or repeated byte), byte "
-                  "counters advance by the bytes offered, ERROR/STOP sticky for later data calls with no parsing callbacks, and no DATA_OTHER ping-pong when draining both remainders.",
+                  "counters advance by the bytes offered, ERROR/STOP sticky for later data calls with no parsing callbacks, and no DATA_OTHER ping-pong when draining both remainders. In the C04 / C16 workloads the start lines of "
+                  "every transaction are compared byte for byte with what was sent (verdict resume_bytes: a stream resumed at the reported count carries every byte exactly once).",
     "level_note": "A direction that reported ERROR stays judged across htp_connp_close() (no callbacks of that direction during close, ERROR on later data calls: the code guards exactly this). What "
                   "htp_connp_close() does after STOP, and data calls on a healthy direction after the caller closed it, are outside the statement. Calls short-circuited by a sticky state may or "
                   "may not advance the byte counters (the code counts after the guards).",
@@ -281,7 +285,8 @@ CHECKS["C18"] = {
                   "100-continue, chunked+trailer, gzip/zlib/raw deflate/2-layer/request gzip, absolute URI, 0.9, malformed lines), under two configurations and three chunkings (as captured, "
                   "re-cut into 5-byte chunks and byte by byte so that every line-buffering allocation exists; thorough also 2- and 3-byte chunks), the run is repeated once per allocation made inside libhtp (malloc/calloc/realloc/strdup incl. the "
                   "LZMA allocator, and inflateInit2_) with exactly that allocation failing - every k up to the fault-free count - and with all pairs (k1,k2) within a window of 40 on the "
-                  "smaller items. Oracle: no ASan/UBSan report, every call returns, the stream-API contract monitor keeps holding on later calls, teardown completes.",
+                  "smaller items. Configuration phase: create, set personality, register hooks / body parsers / log callback, htp_config_copy, parser on the copy, one exchange, destroy everything - "
+                  "again once per allocation of the sequence. Oracle: no ASan/UBSan report, every call returns, the stream-API contract monitor keeps holding on later calls, teardown completes.",
     "level_note": "Leaks while a fault is being injected are not judged (the statement asks for no crash, corruption, double free or use-after-free). zlib's internal allocations are reached only "
                   "through inflateInit2_ returning Z_MEM_ERROR.",
     "design_ref": "DESIGN.md §6 C18",
@@ -301,8 +306,8 @@ CHECKS["C10"] = {
     "level": "model_checking",
     "technique": "explicit-state BFS with small limits plus exhaustive cut enumeration around the limit and deterministic steady-state heap accounting, limit monitor after every call, on the real code",
     "level_text": "M-lim (buffered line bytes <= field_limit_hard, folded header <= cap + one line, repetitions <= 64, transactions held <= max_tx + 1) is evaluated after every call of: the "
-                  "statemc search with field_limit_hard=24 / max_tx=2 and over-long half tokens; every field of length limit-3..limit+4 for limits {8,24,64} in six line kinds (request line, "
-                  "request header, request chunk-size line, status line, response header, response chunk-size line) under EVERY single and double cut inside the line and byte-by-byte "
+                  "statemc search with field_limit_hard=24 / max_tx=2 and over-long half tokens; every field of length limit-3..limit+4 for limits {8,24,64} in eight line kinds (request line, "
+                  "request header, request chunk-size line, status line, response header, response chunk-size line, the line after a complete request / response that does not start a message) under EVERY single and double cut inside the line and byte-by-byte "
                   "delivery, where a run that does not end in ERROR must report the field whole (no silent truncation); 130 KiB folded-header pumps, 70/200 repetitions of one name, "
                   "max_tx in {1,2,5} with max_tx+4 pipelined requests / unmatched responses. Steady state: every <=1-deviation grammar exchange repeated 1000 (quick) / 10000 (thorough) "
                   "times with auto-destroy, logging off and htp_connp_tx_freed() after each completion; live heap bytes at every TRANSACTION_COMPLETE must be EXACTLY equal from the 4th on. Rounds: every ordered pair (A, B) of the 21 base exchanges "
@@ -372,7 +377,7 @@ def _c01_jobs(tier):
 CHECKS["C14"] = {
     "level": "model_checking",
     "technique": "stateless deviation-bounded exploration of segmentation over an exhaustively generated multipart body space with a ground-truth oracle, on the real streaming parser",
-    "level_text": "gen_mpart emits bodies together with the parts they encode: boundaries {BB, b, -x-}, 0-2 parts (3 in thorough), names {a, a\"b (escaped), empty}, optional filename, "
+    "level_text": "gen_mpart emits bodies together with the parts they encode: boundaries {BB, b, -x-}, 0-2 parts (3 in thorough), names {a, a\"b (escaped), empty, a\\ (trailing backslash), \\a\\\\b}, file name {none, f.txt, C:\\d\\}, "
                   "optional part Content-Type, content = every string of length <= 3 over {CR, LF, -, x} plus near-boundary texts (contents that would contain a real delimiter are "
                   "excluded as not well-formed), preamble/epilogue on/off, CRLF or LF line ends (27.9k bodies). Each body is fed to htp_mpartp_parse()/finalize() whole, with every single "
                   "cut, every pair of cuts within 8 bytes (quick) / all pairs and all triples on bodies <= 70 bytes (thorough), and 1-/2-byte delivery; every chunk lives in an exact-size "
